@@ -76,7 +76,7 @@ CLAIMED = {
    note='Field.cast_value is a parameter (its outcomes are supplied per case); field names of the schema assumed distinct; field-name patterns with a top-level alternation are not generated (their anchoring is not pinned by the property); try/except is translated for bodies whose failure leaves the state unchanged; a handler that updates the row reports it through the write-back convention; PyLite translator + evaluator are trusted and validated by the pyeval correspondence',
    ref='6/C14'),
  'C18': dict(
-   technique='Lean 4 proof (transition system of producer / N workers / fetcher / collector: termination measure, multiset conservation, 10-clause inductive invariant, deadlock freedom, exactly-once at termination; all N>=1, all inputs, all schedules) + sched correspondence under a controlled scheduler + real multi-process runs + translator tie (Tie_fetcher_turn / fetcher_turn_is_fPut: the body of the fetcher loop, re-translated from the working tree on every run, is the fPut step of the state machine; Tie_producer_loop / producer_is_prod_steps: the producer loop = one prod step per row) + pyeval correspondence on scripted queues',
+   technique='Lean 4 proof (transition system of producer / N workers / fetcher / collector: termination measure, multiset conservation, 10-clause inductive invariant, deadlock freedom, exactly-once at termination; all N>=1, all inputs, all schedules) + sched correspondence under a controlled scheduler + real multi-process runs + translator tie (Tie_fetcher_turn / fetcher_turn_is_fPut: the body of the fetcher loop, re-translated from the working tree on every run, is the fPut step of the state machine; Tie_producer_loop / producer_is_prod_steps: the producer loop = one prod step per row; Tie_work_turn: a taken row is put exactly once whether or not the row function raises; Tie_collector_turn / collector_turn_is_coll: the collector loop body = the coll step) + pyeval correspondence on scripted queues',
    text='C18_terminates, C18_conservation, C18_no_deadlock and C18_exactly_once are proved by induction over reachable states of an executable nondeterministic transition system, for every number of workers, input and interleaving. The real producer/work/fetcher/fork bodies are run with scheduler-aware stand-ins for the queue/thread/process names and driven by the same schedule string as the model: effective-step flags and delivered rows must agree step by step; delivered multiset and termination are also checked on the real functions and on uncontrolled multi-process runs.',
    note='mp.Queue FIFO per producing process, atomic queue operations; single-writer queues are represented as rows++markers (program order of their one writer); threads substitute processes in the controlled runs',
    ref='6/C18'),
